@@ -34,11 +34,11 @@ META = dict(
          "history; (c) validator: every token string of length<=3 over 17 tokens (numbers, statistics, operators, "
          "parentheses, 3 rejects and the empty token, i.e. a leading / trailing / doubled space) joined by single spaces (also with the judged spec in the first / middle / last of 2-3 tests that share limit names): accepted iff every token is allowed, else ValueError; (d) "
          "creator: synthetic time-constant NetCDF-3 climatologies (2-d and 3-d, 4 cell patterns incl. NaN / negative / "
-         "zero-sum) x every index-aligned bounding box x 4 date ranges x 3 expression sets, + request histories on one creator (one variable config edited in place / fresh objects): spans must equal the "
+         "zero-sum) x every index-aligned bounding box x 6 date ranges (one day ... exactly one year) x 3 expression sets, + request histories on one creator (one variable config edited in place / fresh objects): spans must equal the "
          "expressions on min/max/mean/std of the in-box cells. non-trivial = expression with an operator / history with "
          "a failing step / token string with a rejected token / box smaller than the grid",
     bounds={"quick": {"expr_depth": 2, "history_depth": 3, "token_len": 3}, "thorough": {"expr_depth": 3, "history_depth": 4, "token_len": 3}},
-    not_judged=["expressions whose reference evaluation divides by zero", "full-year (365 day) date ranges", "tabs / other whitespace in the validator input"],
+    not_judged=["expressions whose reference evaluation divides by zero", "tabs / other whitespace in the validator input"],
     assumptions=["relative tolerance 1e-12 for expression values, 1e-9 for generated spans (cubic spline of a constant)"],
 )
 
@@ -199,7 +199,8 @@ EXPRSETS = [
     dict(suspect_min="min", suspect_max="max", fail_min="min - ( max - min ) / 2", fail_max="max + ( max - min ) / 2"),
     dict(suspect_min="- 2 + mean", suspect_max="mean * 2 - min", fail_min="min - 1", fail_max="2 * ( max + 1 )"),
 ]
-DATES = [("2001-03-01", "2001-03-02"), ("2001-06-01", "2001-07-01"), ("2001-12-20", "2002-01-10"), ("2001-01-02", "2002-01-01")]
+DATES = [("2001-03-01", "2001-03-02"), ("2001-06-01", "2001-07-01"), ("2001-12-20", "2002-01-10"), ("2001-01-02", "2002-01-01"),
+         ("2001-01-01", "2002-01-01"), ("2002-06-15", "2003-06-15")]  # the last two: exactly one year (365 days, the documented maximum)
 _CREATORS = {}
 _TMP = None
 
